@@ -46,6 +46,9 @@ func (e *Exec) visibleAction(th *Thread, what string) {
 	if len(en) <= 1 {
 		return
 	}
+	if e.preemptions >= e.preemptBound {
+		return // preemption bound reached: the running thread continues until it blocks or ends
+	}
 	// current thread first so that decision 0 = continue
 	order := []*Thread{th}
 	for _, t := range en {
@@ -176,5 +179,53 @@ func (e *Exec) visibleActionAfter(th *Thread, what string) {
 func dbg(format string, args ...interface{}) {
 	if debugTrace {
 		fmt.Fprintf(os.Stderr, format+"\n", args...)
+	}
+}
+
+func init() {
+	p := rosmarPath + "."
+	stubs[p+"verifExplore"] = func(e *Exec, th *Thread, c *CallCtx, a []Val) StubRes {
+		e.explore = true
+		e.preemptBound = e.concreteInt(a[0], "preemption bound")
+		e.symOnly = true // schedules are not replayed natively
+		return ret(nil)
+	}
+	stubs[p+"verifJoin"] = func(e *Exec, th *Thread, c *CallCtx, a []Val) StubRes {
+		others := func() bool {
+			for _, t := range e.threads {
+				if t != th && e.enabled(t) {
+					return false
+				}
+			}
+			return true
+		}
+		if others() {
+			return ret(nil)
+		}
+		e.block(th, others, "join")
+		th.joining = true
+		return StubRes{blocked: true}
+	}
+	stubs[p+"verifLiveThreads"] = func(e *Exec, th *Thread, c *CallCtx, a []Val) StubRes {
+		n := 0
+		for _, t := range e.threads {
+			if t != th && !t.done {
+				n++
+			}
+		}
+		return ret(mkInt(int64(n)))
+	}
+	stubs[p+"verifFireTimers"] = func(e *Exec, th *Thread, c *CallCtx, a []Val) StubRes {
+		n := 0
+		for _, t := range e.timers {
+			if t.armed {
+				t.armed = false
+				t.fired++
+				nt := e.spawn(t.fn, nil, "timer")
+				nt.name = fmt.Sprintf("timer%d", t.id)
+				n++
+			}
+		}
+		return ret(mkInt(int64(n)))
 	}
 }
